@@ -14,6 +14,10 @@ HARNESSES = {
                     'rt': ['rt_sancov.o'], 'cxxflags': ['-DHARNESS_NAME="ring_conc_a"']},
     'array_conc': {'src': ['harness/array_conc.cc'], 'flavours': {'array.c': 'acc'},
                    'rt': ['rt_sancov.o'], 'cxxflags': ['-DHARNESS_NAME="array_conc"']},
+    # log_thread.c is access-instrumented; the harness brings its own trace-loads/stores callbacks (site = code position,
+    # so that no data address reaches the event log), hence no rt_sancov.o
+    'logthread': {'src': ['harness/logthread.cc'], 'flavours': {'log_thread.c': 'acc'},
+                  'rt': [], 'cxxflags': ['-DHARNESS_NAME="logthread"']},
 }
 
 PROPS = {
@@ -316,6 +320,46 @@ PROPS['C06'] = _ipc('a hostile sim-process writing arbitrary handshake bytes and
     design_ref='DESIGN.md 4/C06',
     assumptions=['the hostile peer can only use the channels the handshake gave it'])
 
+PROPS['C16'] = {
+    'parts': [{'harness': 'logthread', 'chunk': 100}],
+    'quick_s': 40, 'thorough_s': 900,
+    'level_quick': 'exploration', 'level_thorough': 'exploration',
+    'rule': 'one evaluation = one seeded (plan, schedule, fault) triple executed in a fresh process image: an application task issuing '
+            'logging API calls drawn from the legal grammar (1-3 qb_log_init .. qb_log_fini cycles; custom targets opened, filtered, '
+            'formatted, enabled/disabled, switched to and from threaded mode, reconfigured, closed and re-opened; qb_log_thread_start '
+            'before, between or after those; priority set; log x n with sizes up to beyond the line limit, occasionally enough 4 KiB '
+            'messages to exceed the 512000 byte backlog), 0-2 extra producer tasks logging in bursts while every target in use is '
+            'threaded, and the logging thread libqb creates itself; preemptible at every load/store log_thread.c makes outside the '
+            'running thread\'s own stack, at every lock/semaphore/thread call and inside the (slow) logger callback; a per-message, '
+            'per-target model says what must have been written synchronously, what must have been written by the worker when '
+            'qb_log_fini returns, and what may go either way because a control call overtook a queued record; "%d messages lost" '
+            'reports are captured and compared with the messages that never arrived; non-trivial = at least two messages were written '
+            'by the logging thread and the baton changed hands more than twice; distinct = distinct fingerprint of the (yield site, '
+            'task switched to) sequence',
+    'level_text': 'seeded search over orders of init / set-threaded / thread-start / control / log / fini / re-init and over '
+                  'application-worker-producer interleavings at shared-access granularity (sequentially consistent), with worker stalls '
+                  'and EINTR on semaphore waits; exactly-once, per-producer order, nothing after fini, nothing left queued, lost-count '
+                  'accounting against a backlog bound, plus ASan and deadlock detection; samples, does not enumerate',
+    'level_note': 'interleavings are sequentially consistent; scheduling points inside the library come from compiler instrumentation of '
+                  'log_thread.c only (log.c is preemptible at its lock calls and inside the harness\'s logger callback), so accesses the '
+                  'compiler merges are not separate points; routing (which targets a call site selects) is read from the documented '
+                  'cs->targets bitmap at the time of the call and not judged here (that is C12); a queued record overtaken by a '
+                  'disable / close / CONF_THREADED off / filter removal of its target is accepted delivered or not; order is judged per '
+                  'producer and per path (worker / synchronous); pthread_setschedparam never fails in the simulation, so the '
+                  'failed-start clean-up path of qb_log_thread_start is not reached; allocation failure is not injected',
+    'technique': 'deterministic simulation: seeded scheduler over real threads with one baton (the logging thread is the one libqb creates, '
+                 'adopted through the pthread_create seam), preemption at every instrumented access of log_thread.c and every '
+                 'lock/semaphore call, stall strategy aimed at the worker, EINTR fault injection, delivery reference model, captured '
+                 'stdout, fork-per-run isolation, ASan, ddmin replay',
+    'design_ref': 'DESIGN.md 4/C16',
+    'real': ['lib/log_thread.c', 'lib/log.c', 'lib/log_format.c', 'lib/log_dcs.c', 'lib/array.c', 'lib/util.c (qb_thread_lock)', 'glibc vsnprintf/stdio, ASan allocator'],
+    'stub': ['POSIX semaphores, spin lock and rwlock waiting (state kept by the shim)', 'pthread_create / pthread_join (simulator tasks)',
+             'pthread_setschedparam (always succeeds)', 'thread scheduling', 'clock', 'syslog target (disabled right after qb_log_init)'],
+    'assumptions': ['sequentially consistent interleavings',
+                    'control calls come from one application thread; other threads only log, and only while every target in use is threaded (qblog.h)',
+                    'logger callbacks do not log themselves', 'malloc does not fail'],
+}
+
 NOT_APPLICABLE = {
     'C12': 'log routing is a pure function of one caller\'s configuration and call-site sequence: no schedule, clock, I/O outcome, peer or crash point for a simulator to control (DESIGN.md section 5)',
     'C13': 'log line formatting is a pure function of (format string, message, call-site fields, timestamp, limit): input generation alone would be fuzzing, not simulation (DESIGN.md section 5)',
@@ -325,4 +369,4 @@ NOT_APPLICABLE = {
 }
 # claimed in DESIGN.md but whose check is not built yet in this tree
 PENDING = {k: 'check not built yet (designed in DESIGN.md section 4); will be claimed when its harness lands' for k in
-           ['C02', 'C03', 'C04', 'C05', 'C06', 'C16']}
+           ['C02', 'C03', 'C04', 'C05', 'C06']}
